@@ -91,10 +91,20 @@ def check_name_capture(chk):
         if fc.kind == "format" and fc.template and re.search(r"\bv\.value\(\)", gen.render_literal_text(fc.template)):
             uses_value = fc.where
             break
+    # names_generator::get_member_names(const sbe::type&) lists the member names a type class must not share
+    # (a clashing class name is mangled)
+    mangled_for = set()
+    for fn in gen.sbeppc_functions(f):
+        if fn["name"] == "get_member_names" and "names_generator" in fn["qn"] and "sbe::type" in ((fn.get("params") or [{}])[0].get("t") or ""):
+            for x in walk(fn["body"]):
+                if "str" in x:
+                    mangled_for.add(x["str"])
     if uses_value:
         key = "capture:value"
         if "value" in rejected:
             chk.ok("G-NAME.capture", key, {"identifier": "value", "rejected_by_validator": True})
+        elif "value" in mangled_for:
+            chk.ok("G-NAME.capture", key, {"identifier": "value", "class_name_mangled_on_clash": sorted(mangled_for)})
         else:
             chk.violation("G-NAME.capture", key, uses_value,
                           "generated setters call `v.value()` on the schema type's class; a <type name='value'> yields "
